@@ -213,6 +213,19 @@ class _Names:
             found = []
             for attr, hc in holders(cls):
                 hp = state_pair(hc)
+                if hp is None and hc.is_namedtuple:
+                    # an immutable record replaced as a whole: the field that defaults to None is the delimiter, the one that
+                    # defaults to 0 its indentation
+                    nones, zeros = [], []
+                    for fld in hc.nt_fields():
+                        ca = hc.find_class_attr(fld)
+                        dv = ca[1] if ca is not None else None
+                        if isinstance(dv, ast.Constant) and dv.value is None:
+                            nones.append(fld)
+                        elif isinstance(dv, ast.Constant) and dv.value == 0 and not isinstance(dv.value, bool):
+                            zeros.append(fld)
+                    if len(nones) == 1 and len(zeros) == 1:
+                        hp = (nones[0], zeros[0])
                 if hp is not None:
                     found.append((attr, hc, hp))
             if len(found) == 1:
